@@ -51,7 +51,11 @@ func init() {
 
 func (w *worldA) wrongPanel(q uint64, rng interface{ IntN(int) int }) []*balloon.Snapshot {
 	n := w.e.rlog.Len()
-	flip := func(d []byte) []byte { x := append([]byte{}, d...); x[rng.IntN(len(x))] ^= 1 << uint(rng.IntN(8)); return x }
+	flip := func(d []byte) []byte {
+		x := append([]byte{}, d...)
+		x[rng.IntN(len(x))] ^= 1 << uint(rng.IntN(8))
+		return x
+	}
 	var out []*balloon.Snapshot
 	o := uint64(rng.IntN(int(n)))
 	out = append(out, &balloon.Snapshot{HistoryDigest: w.e.rlog.Hist.Root(o), HyperDigest: w.authenticHyperOr(o), Version: o})
